@@ -301,7 +301,7 @@ func c17Check(env *core.Env, cc core.Case) core.Verdict {
 		}
 		for rel, in := range map[string]string{relA: first, relB: content} {
 			got, _ := sut.Read(root, rel)
-			if want := c13Model(filepathBaseRule(rel), in); got != want {
+			if want := c13Model(filepathBaseRule(rel), in); !sameLines(got, want) {
 				return core.Viol("lines-lost:renumber-all", "renumber-tests --all with a %d-byte line in the second file: %s has %d bytes, expected %d\n%s", c.Len, rel, len(got), len(want), firstDiffShort(got, want))
 			}
 		}
@@ -330,7 +330,7 @@ func c17Check(env *core.Env, cc core.Case) core.Verdict {
 		}
 		got, _ := sut.Read(root, rel)
 		want := c13Model("932100", content)
-		if got != want {
+		if !sameLines(got, want) {
 			return core.Viol("lines-lost:renumber", "renumber-tests with a %d-byte line at position %s: result has %d bytes, expected %d\n%s", c.Len, c.Pos, len(got), len(want), firstDiffShort(got, want))
 		}
 		return v
@@ -361,7 +361,7 @@ func c17Check(env *core.Env, cc core.Case) core.Verdict {
 		}
 		got, _ := sut.Read(root, rel)
 		want := strings.ReplaceAll(strings.Join(lines, "\n")+"\n", "4.0.0", "4.5.6")
-		if got != want {
+		if !sameLines(got, want) {
 			return core.Viol("lines-lost:copyright", "update-copyright with a %d-byte line at position %s: result has %d bytes, expected %d\n%s", c.Len, c.Pos, len(got), len(want), firstDiffShort(got, want))
 		}
 		return v
